@@ -251,6 +251,67 @@ func checkC14(c caseC14) (sig, msg string) {
 				}
 			}
 			// binary fields: only dst was written to, src is checked like everyone else
+		case "twin":
+			// the frame of a decoded pool packet is decoded once more; then one
+			// element is added to the same list of each of the two, first to
+			// the older, then to the newer: each keeps its own
+			if len(pool) == 0 {
+				continue
+			}
+			ai := op.Slot % len(pool)
+			a := pool[ai]
+			if a.frame == nil {
+				continue
+			}
+			var q mq.ControlPacket
+			var err error
+			if a.how == "unmarshal" {
+				first, _, body, _ := ref.Split(a.frame)
+				v := api.NewZero(int(first >> 4))
+				if a.isNew {
+					v = api.NewPacket(int(first >> 4))
+				}
+				if pan := guard.Call(func() { err = v.UnmarshalBinary(append([]byte(nil), body...)) }); pan != nil {
+					return "panic", fmt.Sprintf("step %d: decoding %s again panicked: %v", step, hx(a.frame), pan.Value)
+				}
+				q = v
+			} else {
+				var pan *guard.Panic
+				q, err, pan = read(append([]byte(nil), a.frame...))
+				if pan != nil {
+					return "panic", fmt.Sprintf("step %d: decoding %s again panicked: %v", step, hx(a.frame), pan.Value)
+				}
+			}
+			if err != nil || q == nil {
+				continue
+			}
+			b := &slotC14{p: q, how: a.how + " (same frame again)", isNew: a.isNew}
+			guard.Call(func() { b.snap = api.Observe(q) })
+			b.first = b.snap.Clone()
+			pool = append(pool, b)
+			wantA, wantB := a.snap.Clone(), b.snap.Clone()
+			what := ""
+			if pan := guard.Call(func() {
+				what = api.AppendOne(a.p, &wantA, "twin-a", op.Pick)
+				api.AppendOne(b.p, &wantB, "twin-b", op.Pick)
+			}); pan != nil {
+				return "panic", fmt.Sprintf("step %d: adding to a list of a decoded packet panicked: %v", step, pan.Value)
+			}
+			if what != "" {
+				var gotA, gotB model.Packet
+				guard.Call(func() { gotA, gotB = api.Observe(a.p), api.Observe(b.p) })
+				if d := model.Diff(gotA, wantA); d != "" {
+					return "interference:twin:" + typeName(a.snap.Type), fmt.Sprintf("step %d: frame %s was decoded twice; %s on the first packet and then on the second: the first packet no longer holds what was added to it (got vs want): %s", step, hx(a.frame), what, d)
+				}
+				if d := model.Diff(gotB, wantB); d != "" {
+					return "interference:twin:" + typeName(a.snap.Type), fmt.Sprintf("step %d: frame %s was decoded twice; %s on the first packet and then on the second: the second packet differs (got vs want): %s", step, hx(a.frame), what, d)
+				}
+				a.snap, b.snap = gotA, gotB
+				a.frame, a.model = nil, nil
+			} else {
+				b.frame = append([]byte(nil), a.frame...)
+			}
+			except = ai
 		case "reuse-connect":
 			// decode another CONNECT into a Connect value that is already in
 			// the pool; the will message obtained from it before is a packet
@@ -359,7 +420,7 @@ func TestC14(t *testing.T) {
 		var kinds []string
 		types := map[int]uint8{}
 		for i := 0; i < n; i++ {
-			k := rapid.IntRange(0, 12).Draw(t, "op")
+			k := rapid.IntRange(0, 13).Draw(t, "op")
 			if live == 0 && k > 3 {
 				k = rapid.IntRange(0, 3).Draw(t, "op0")
 			}
@@ -422,6 +483,23 @@ func TestC14(t *testing.T) {
 					}
 				} else if k0 == 4 {
 					m := genSpecValid(t, model.SUBSCRIBE) // lists whose length is not their capacity
+					op.Frame = ref.Canonical(&m)
+				} else if k0 == 5 {
+					// a packet with 3..7 user properties (and subscription
+					// identifiers): append growth leaves spare capacity
+					typ := rapid.SampledFrom([]uint8{model.PUBLISH, model.PUBLISH, model.CONNACK, model.PUBACK, model.SUBACK}).Draw(t, "listtype")
+					m := genSpecValid(t, typ)
+					m.UserProps = nil
+					for j, n := 0, rapid.IntRange(3, 7).Draw(t, "nup"); j < n; j++ {
+						m.UserProps = append(m.UserProps, model.KV{K: fmt.Sprintf("key%d", j), V: "value"})
+					}
+					if typ == model.PUBLISH && rapid.Bool().Draw(t, "withsubids") {
+						m.SubIDs = nil
+						for j, n := 0, rapid.IntRange(3, 7).Draw(t, "nsid"); j < n; j++ {
+							m.SubIDs = append(m.SubIDs, uint32(j+1))
+						}
+					}
+					m.Normalize()
 					op.Frame = ref.Canonical(&m)
 				} else if k0 == 2 {
 					m := genSpecValid(t, model.CONNECT)
@@ -504,6 +582,13 @@ func TestC14(t *testing.T) {
 				if s.IsList {
 					op.Index = listLenOf(&m, s.Name) - 1
 				}
+			case k == 13:
+				op.Kind = "twin"
+				op.Slot = rapid.IntRange(0, 5).Draw(t, "slot")
+				op.Pick = rapid.IntRange(0, 7).Draw(t, "pick")
+				types[live] = types[op.Slot%live]
+				live++
+				nt = true
 			case k == 12:
 				op.Kind = "transfer"
 				op.Slot = rapid.IntRange(0, 5).Draw(t, "slot")
